@@ -8,6 +8,7 @@ PLAN = dict(
           "io.EOF only after the whole payload; with an arbitrary digest no octet and no clean EOF; a record-size field of 0 or above the caller's limit "
           "makes NewDecoder fail having pulled at most the 8 octets of that field; the unmutated stream must be delivered completely (two-sided). "
           "Rejection is never demanded of a mutant (e.g. a larger record-size field on a single-record stream still authenticates). "
+          "Short streams (payloads of 0 / 1 / 5 octets) under record sizes 255 .. 2^20 get every truncation and bit flip; a clean end on a proper prefix of the honest stream is a violation whatever was delivered. "
           "Non-trivial: the mutant differs from the honest stream and the payload spans >= 2 records (arbitrary digest: the stream carries a record-size "
           "field within the limit and at least one further octet, so a record is checked against the digest); distinct by fingerprint of the case."),
     assumptions=TRUSTED + ["SHA-256 collision/preimage resistance: a stream that authenticates under a digest carries the committed payload",
